@@ -253,7 +253,37 @@ let cpair = function
     else !r
   | _ -> raise (Bad "cpair case")
 
+(* ---- cbusy: a session that lasts longer than the keepalive interval K the peer announced, with transfers in both
+   directions all the time (no gap above K/3 on the harness's clock), so that no KEEPALIVE is ever needed.
+   (case n cbusy <the 13 fields of ctrace> K status (xfer...) (handed-up...) acked) ---- *)
+let cbusy fields =
+  let rec drop k l = if k <= 0 then l else match l with [] -> [] | _ :: l -> drop (k - 1) l in
+  match drop 13 fields with
+  | [k; status; xfers; held; acked] ->
+    let k = s_int k and status = s_sym status and acked = s_bool acked in
+    if status = "unsteady" then [Ok_ ["cbusy"; "inconclusive-harness-unsteady"]]
+    else if status = "nosession" then [Mismatch "cbusy: the session was not established"]
+    else begin
+      let r = ref [] and tags = ref ["cbusy"; Printf.sprintf "keepalive-%d" k] in
+      let add v = r := v :: !r in
+      if status = "lost" then
+        add (Propfail ("tcpcl.busy.session-lost",
+                       Printf.sprintf "the Client ended a session on which transfer messages arrived all the time (keepalive interval %d s announced by the peer, no gap above a third of it); the transfers in progress are cut off" k));
+      if (not acked) && status <> "lost" then
+        add (Propfail ("tcpcl.busy.not-acknowledged", "a transfer of the peer was not acknowledged completely"));
+      let xs = List.map atom (lst xfers) and hs = List.map atom (lst held) in
+      if hs <> xs then
+        add (Propfail ("tcpcl.busy.not-handed-up",
+                       Printf.sprintf "the peer sent %d transfers, %d bundles were handed up (or they differ)" (List.length xs) (List.length hs)));
+      List.iter (function
+          | Ok_ ts -> tags := !tags @ List.filter (fun t -> t <> "ctrace") ts
+          | v -> add v) (ctrace (take 13 fields));
+      if !r = [] then [Ok_ !tags] else List.rev !r
+    end
+  | _ -> raise (Bad "cbusy case")
+
 let () =
+  register "C11client" "cbusy" cbusy;
   register "C11client" "ctrace" ctrace;
   register "C11client" "crecv" crecv;
   register "C11client" "cpair" cpair
